@@ -123,7 +123,7 @@ def gen(seed, idx, tier):
         scn["device"]["terminals"][-1]["inside"] = True
         scn["allow_empty_terminal"] = True
     elif cls == "seed-mismatch":
-        defect["seed_change"] = rnd.choice(["film", "layer", "probes", "terminals"])
+        defect["seed_change"] = rnd.choice(["film", "layer", "probes", "terminals", "holes", "name", "hole-moved", "one-terminal-less"])
     elif cls == "A-shape":
         defect["shape"] = rnd.choice(["scalar", "column", "short", "plain-col1", "plain-flat", "plain-short"])
         if defect["shape"].startswith("plain-"):
@@ -200,6 +200,25 @@ def run(scn):
                 other["device"]["layer"] = dict(other["device"]["layer"], lam=other["device"]["layer"]["lam"] * 2)
             elif ch == "probes":
                 other["device"]["probes"] = None if other["device"]["probes"] else [[0.1, 0.1], [-0.1, 0.1]]
+            elif ch == "name":
+                other["device"]["name"] = "another_device"
+            elif ch in ("holes", "hole-moved"):
+                holes = copy.deepcopy(other["device"].get("holes") or [])
+                if ch == "hole-moved" and holes:
+                    holes[-1]["c"] = [holes[-1]["c"][0] + 0.15, holes[-1]["c"][1] - 0.1]
+                elif holes:
+                    holes = holes[:-1]  # the seed's device has one hole less (a prefix of the hole list)
+                else:
+                    hw, hh = scen.film_half_extent(other["device"]["film"])
+                    holes = [{"kind": "ellipse", "a": 0.2 * min(hw, hh), "b": 0.2 * min(hw, hh), "npts": 8, "c": [0.05, -0.03], "name": "hole0"}]
+                other["device"]["holes"] = holes
+                if other["device"].get("probes"):
+                    other["device"]["probes"] = None
+                    scn["device"]["probes"] = None
+            elif ch == "one-terminal-less" and len(other["device"]["terminals"]) >= 3:
+                # the seed's device has one terminal less (a prefix of the terminal list)
+                other["device"]["terminals"] = other["device"]["terminals"][:-1]
+                other["drive"]["currents"] = None
             else:
                 other["device"]["terminals"] = [] if other["device"]["terminals"] else scen.gen_terminals(substream(1, "t"), other["device"]["film"], 2)
                 other["drive"]["currents"] = None
